@@ -1050,7 +1050,18 @@ class Assembler:
         # listed with the assumed contracts in the evidence
         for ab in spec.get('abstract', []):
             try:
-                self._abstract_one(s, fp, ed, spec, fnname, ab)
+                if ab.get('all') and 'call' in ab:
+                    # every occurrence of the call (at least one)
+                    self._abstract_one(s, fp, ed, spec, fnname, dict(ab, n=0))
+                    n_ = 1
+                    while True:
+                        try:
+                            self._abstract_one(s, fp, ed, spec, fnname, dict(ab, n=n_))
+                        except ExtractError:
+                            break
+                        n_ += 1
+                else:
+                    self._abstract_one(s, fp, ed, spec, fnname, ab)
             except ExtractError as e:
                 # `optional = true`: an abstraction whose anchor is gone is skipped -- the code that stands there now is handed
                 # to Verus as it is (and is judged by the contracts, or is undecided if it is outside the subset)
